@@ -531,12 +531,41 @@ Definition fit_verdict (c : fconf) (sims : list frame3) : verdict :=
   | _, FR2 _ _ => DontCare
   end.
 
-(* all target files have one shape, all simulated frames have one shape = the declared geometry *)
+(* rectangular arrays of a given shape (every numpy array is) *)
+Definition rect3b (T R C : nat) (f : frame3) : bool :=
+  Nat.eqb (length f) T
+  && forallb (fun p => Nat.eqb (length p) R && forallb (fun row : list cell => Nat.eqb (length row) C) p) f.
+Definition rect_sh (sh : list nat) (f : frame3) : bool := rect3b (nth 0 sh 0%nat) (nth 1 sh 0%nat) (nth 2 sh 0%nat) f.
+
+(* all target files are rectangular of one shape, all simulated frames are rectangular of one shape =
+   the declared geometry, no empty axis *)
 Definition uniform (c : fconf) (sims : list frame3) : bool :=
-  forallb (fun t => shape_eqb (shape3 t) (tshape c)) (fc_tgts c)
-  && forallb (fun s => shape_eqb (shape3 s) (dshape sims)) sims
+  forallb (rect_sh (tshape c)) (fc_tgts c)
+  && forallb (rect_sh (dshape sims)) sims
   && (shape_dim (dshape sims) DRow =? fc_drows c)%Z && (shape_dim (dshape sims) DCol =? fc_dcols c)%Z
   && negb (existsb (Nat.eqb 0) (tshape c)) && negb (existsb (Nat.eqb 0) (dshape sims)).
+
+(* the hypotheses under which the model is shown to meet the specification = the complement of the
+   open findings about the ranges: the result range lies inside the simulated frame and an open
+   result stop means the same size as the target's (C11-F6d); with a 2-D target range the result
+   selects as many readout times as the target has (C11-F6e) *)
+Definition stop_given (s : sl) : bool := match snd s with Some _ => true | None => false end.
+Definition frame_dim_ok (nt nd : Z) (o : sl) : bool := sl_inside nd o && ((nt =? nd)%Z || stop_given o).
+Definition frame_covers (c : fconf) (sims : list frame3) : bool :=
+  let tsh := tshape c in
+  let dsh := dshape sims in
+  let '(ot, orow, ocol) := out_slices (fc_orng c) in
+  frame_dim_ok (shape_dim tsh DTime) (shape_dim dsh DTime) ot
+  && frame_dim_ok (shape_dim tsh DRow) (shape_dim dsh DRow) orow
+  && frame_dim_ok (shape_dim tsh DCol) (shape_dim dsh DCol) ocol.
+Definition verdict_eqb (a b : verdict) : bool :=
+  match a, b with MustAccept, MustAccept | MustReject, MustReject | DontCare, DontCare => true | _, _ => false end.
+Definition time_2d_ok (c : fconf) (sims : list frame3) : bool :=
+  match fc_trng c, fc_orng c with
+  | FR2 _ _, FR3 ot _ _ =>
+      verdict_eqb (dim_verdict (shape_dim (tshape c) DTime) (shape_dim (dshape sims) DTime) (None, None) ot) MustAccept
+  | _, _ => true
+  end.
 
 Definition spec_fit (c : fconf) (sims : list frame3) : option fobs :=
   let tsh := tshape c in
